@@ -10,6 +10,11 @@
 //! obfs x OnUpgrade present. Accept hashes: the RFC 6455 example, every key length 0..=130 and random
 //! keys against an own SHA-1/base64 and the Lean SHA-1/base64. A short part over a real TCP connection
 //! (`run_listener`) shows that hyper attaches the `OnUpgrade` extension the in-process runs supply.
+//! With a reverse-proxy backend: one that answers every path alike (`backend:` rows, responses equal),
+//! and one that answers with the very request it was handed - request line, header lines, body, and a
+//! digest of all but the path (`backend-view:` rows): a declined `/ws` request and the same request on
+//! `/x` must reach the backend equal but for the path (with and without a presented / configured PSK,
+//! a key, near-miss upgrade headers, a body, a query, forwarding headers; in-process and over TCP).
 //!
 //! Non-trivial case: a GET whose target routes to `ws_handler` (gets past the path and method tests).
 
@@ -858,6 +863,10 @@ impl Impl {
 }
 
 fn build_request(c: &Conc) -> Result<Request<Empty<Bytes>>, String> {
+    build_request_with(c, Empty::<Bytes>::new())
+}
+
+fn build_request_with<B>(c: &Conc, body: B) -> Result<Request<B>, String> {
     let mut b = Request::builder()
         .method(Method::from_bytes(c.method.as_bytes()).map_err(|e| format!("method: {e}"))?)
         .uri(c.target.as_str());
@@ -869,7 +878,7 @@ fn build_request(c: &Conc) -> Result<Request<Empty<Bytes>>, String> {
     if c.onup {
         b = b.extension(hyper::upgrade::on(Request::new(Empty::<Bytes>::new())));
     }
-    b.body(Empty::<Bytes>::new()).map_err(|e| format!("request: {e}"))
+    b.body(body).map_err(|e| format!("request: {e}"))
 }
 
 async fn eval_async(st: &State, c: &Conc) -> Obs {
@@ -946,6 +955,42 @@ fn oracle(c: &Conc, o: &Obs, twin: &Obs) -> Option<(&'static str, String)> {
     None
 }
 
+/// The plainer neighbours of a case: one dimension reset to its plain value.
+fn shrink_candidates(cur: Case) -> Vec<Case> {
+    let mut cands: Vec<Case> = vec![];
+    for h in 0..5 {
+        for v in [V_EXACT, V_ABSENT] {
+            if cur.hv[h] != v && cur.hv[h] != V_EXACT {
+                let mut c = cur;
+                c.hv[h] = v;
+                cands.push(c);
+            }
+        }
+    }
+    if cur.pv != P_EQUAL {
+        cands.push(Case { pv: P_EQUAL, ..cur });
+    }
+    if cur.pv != P_ABSENT && cur.pv != P_EQUAL {
+        cands.push(Case { pv: P_ABSENT, ..cur });
+    }
+    if cur.obfs {
+        cands.push(Case { obfs: false, ..cur });
+    }
+    if !cur.onup {
+        cands.push(Case { onup: true, ..cur });
+    }
+    if cur.psk_cfg {
+        cands.push(Case { psk_cfg: false, ..cur });
+    }
+    if cur.method != 0 {
+        cands.push(Case { method: 0, ..cur });
+    }
+    if cur.target != 0 {
+        cands.push(Case { target: 0, ..cur });
+    }
+    cands
+}
+
 // ---------------------------------------------------------------------------------------------
 // Workers
 // ---------------------------------------------------------------------------------------------
@@ -970,38 +1015,7 @@ impl Worker {
         let mut cur = case;
         loop {
             let mut changed = false;
-            let mut cands: Vec<Case> = vec![];
-            for h in 0..5 {
-                for v in [V_EXACT, V_ABSENT] {
-                    if cur.hv[h] != v && cur.hv[h] != V_EXACT {
-                        let mut c = cur;
-                        c.hv[h] = v;
-                        cands.push(c);
-                    }
-                }
-            }
-            if cur.pv != P_EQUAL {
-                cands.push(Case { pv: P_EQUAL, ..cur });
-            }
-            if cur.pv != P_ABSENT && cur.pv != P_EQUAL {
-                cands.push(Case { pv: P_ABSENT, ..cur });
-            }
-            if cur.obfs {
-                cands.push(Case { obfs: false, ..cur });
-            }
-            if !cur.onup {
-                cands.push(Case { onup: true, ..cur });
-            }
-            if cur.psk_cfg {
-                cands.push(Case { psk_cfg: false, ..cur });
-            }
-            if cur.method != 0 {
-                cands.push(Case { method: 0, ..cur });
-            }
-            if cur.target != 0 {
-                cands.push(Case { target: 0, ..cur });
-            }
-            for c in cands {
+            for c in shrink_candidates(cur) {
                 if self.case_fails(&c).is_some() {
                     cur = c;
                     changed = true;
@@ -1270,7 +1284,8 @@ fn trim_ows(v: &[u8]) -> Vec<u8> {
     v[s..e].to_vec()
 }
 
-async fn wire_request(addr: std::net::SocketAddr, c: &Conc) -> Result<(u16, Vec<(String, Vec<u8>)>, Vec<u8>), String> {
+/// `body`: sent after the head as it is (the caller puts the `content-length` line among the headers).
+async fn wire_request(addr: std::net::SocketAddr, c: &Conc, body: &[u8]) -> Result<(u16, Vec<(String, Vec<u8>)>, Vec<u8>), String> {
     use tokio::io::{AsyncReadExt, AsyncWriteExt};
     let mut s = tokio::net::TcpStream::connect(addr).await.map_err(|e| format!("connect: {e}"))?;
     let mut req = format!("{} {} HTTP/1.1\r\n", c.method, c.target).into_bytes();
@@ -1281,6 +1296,7 @@ async fn wire_request(addr: std::net::SocketAddr, c: &Conc) -> Result<(u16, Vec<
         req.extend_from_slice(b"\r\n");
     }
     req.extend_from_slice(b"\r\n");
+    req.extend_from_slice(body);
     s.write_all(&req).await.map_err(|e| format!("write: {e}"))?;
     let mut buf = vec![];
     let mut tmp = [0u8; 4096];
@@ -1495,7 +1511,7 @@ fn wire_part(rep: &mut Report) {
         }
         seen.onup = seen.first("upgrade").is_some() || seen.method == "CONNECT";
         let inproc = imp.eval(&seen);
-        let wire = rt.block_on(wire_request(addr, &c));
+        let wire = rt.block_on(wire_request(addr, &c, b""));
         rep.case(Some(fnv(format!("wire {}", c.driver_line()).as_bytes())));
         rep.count("part/wire");
         let key = format!("wire: {}", case.describe());
@@ -1534,12 +1550,645 @@ fn wire_part(rep: &mut Report) {
 }
 
 // ---------------------------------------------------------------------------------------------
+// With a backend that reflects the request it is handed (`backend-view:` rows)
+// ---------------------------------------------------------------------------------------------
+//
+// The backend of `backend_part` answers every request (almost) alike, so it cannot tell whether the
+// server handed it the request it was sent. This one is a plain TCP server that answers every request
+// with the bytes it received: the request line, every header line in the order and spelling they
+// arrived in, and the body; and with a digest of all of that but the path in a response header, i.e.
+// a backend whose answer depends on the request. A declined `/ws` request and the same request on the
+// unknown path must then be handed on alike: the two reflections have to be equal but for the path
+// (whatever the proxy does to a request on its way - forwarding headers, hop-by-hop headers, body
+// framing - it has to do on both), and so have the two responses. No fixed expectation of what a
+// proxied request looks like enters; the Lean model has no notion of the reflected request (its
+// backend is an abstract function of the unchanged request), so these rows are judged here only.
+
+fn find_bytes(hay: &[u8], pat: &[u8]) -> Option<usize> {
+    hay.windows(pat.len()).position(|w| w == pat)
+}
+
+/// `(method, target, version)` of a raw request head, and where its first line ends.
+fn request_line(head: &[u8]) -> Option<(&[u8], &[u8], &[u8], usize)> {
+    let eol = find_bytes(head, b"\r\n")?;
+    let mut parts = head[..eol].splitn(3, |b| *b == b' ');
+    Some((parts.next()?, parts.next()?, parts.next()?, eol))
+}
+
+/// What the reflecting backend puts into `x-request-digest`: everything it received but the path
+/// (method, query, version, every header line, the body).
+fn view_digest(head: &[u8], body: &[u8]) -> u64 {
+    match request_line(head) {
+        Some((method, target, version, eol)) => {
+            let query = target.iter().position(|b| *b == b'?').map_or(&b""[..], |i| &target[i..]);
+            fnv(&[method, b" ", query, b" ", version, &head[eol..], body].concat())
+        }
+        None => fnv(&[head, body].concat()),
+    }
+}
+
+struct RawConn {
+    s: tokio::net::TcpStream,
+    buf: Vec<u8>,
+}
+
+impl RawConn {
+    async fn fill(&mut self) -> bool {
+        use tokio::io::AsyncReadExt;
+        let mut tmp = [0u8; 16384];
+        match self.s.read(&mut tmp).await {
+            Ok(0) | Err(_) => false,
+            Ok(k) => {
+                self.buf.extend_from_slice(&tmp[..k]);
+                true
+            }
+        }
+    }
+    /// The bytes up to and including the first `pat`.
+    async fn through(&mut self, pat: &[u8]) -> Option<Vec<u8>> {
+        loop {
+            if let Some(p) = find_bytes(&self.buf, pat) {
+                return Some(self.buf.drain(..p + pat.len()).collect());
+            }
+            if !self.fill().await {
+                return None;
+            }
+        }
+    }
+    async fn take(&mut self, n: usize) -> Option<Vec<u8>> {
+        while self.buf.len() < n {
+            if !self.fill().await {
+                return None;
+            }
+        }
+        Some(self.buf.drain(..n).collect())
+    }
+}
+
+/// One connection of the reflecting backend (HTTP/1.1, keep-alive, `content-length` or chunked bodies).
+async fn reflecting_backend_conn(s: tokio::net::TcpStream) {
+    use tokio::io::AsyncWriteExt;
+    let mut c = RawConn { s, buf: vec![] };
+    loop {
+        let Some(head) = c.through(b"\r\n\r\n").await else { return };
+        let field = |name: &str| -> Option<Vec<u8>> {
+            head.split(|b| *b == b'\n').skip(1).find_map(|l| {
+                let i = l.iter().position(|b| *b == b':')?;
+                let v: Vec<u8> = l[i + 1..].iter().copied().filter(|b| *b != b'\r').collect();
+                eq_ci(&l[..i], name.as_bytes()).then(|| trim_ows(&v))
+            })
+        };
+        let mut body = vec![];
+        if field("transfer-encoding").is_some_and(|v| v.to_ascii_lowercase().ends_with(b"chunked")) {
+            loop {
+                let Some(l) = c.through(b"\r\n").await else { return };
+                let digits: String = l.iter().take_while(|b| b.is_ascii_hexdigit()).map(|b| char::from(*b)).collect();
+                let Ok(n) = usize::from_str_radix(&digits, 16) else { return };
+                if n == 0 {
+                    loop {
+                        let Some(t) = c.through(b"\r\n").await else { return };
+                        if t == b"\r\n" {
+                            break;
+                        }
+                    }
+                    break;
+                }
+                let Some(d) = c.take(n + 2).await else { return };
+                body.extend_from_slice(&d[..n]);
+            }
+        } else if let Some(n) = field("content-length").and_then(|v| String::from_utf8_lossy(&v).parse::<usize>().ok()) {
+            let Some(d) = c.take(n).await else { return };
+            body = d;
+        }
+        let text = [head.as_slice(), &body].concat();
+        let mut resp = format!(
+            "HTTP/1.1 200 OK\r\nx-backend: 1\r\nx-request-digest: {:016x}\r\ncontent-type: application/octet-stream\r\ncontent-length: {}\r\n\r\n",
+            view_digest(&head, &body),
+            text.len()
+        )
+        .into_bytes();
+        if !head.starts_with(b"HEAD ") {
+            resp.extend_from_slice(&text);
+        }
+        if c.s.write_all(&resp).await.is_err() {
+            return;
+        }
+    }
+}
+
+/// A request of the `backend-view` rows: the request, its body, whether the server adds forwarding
+/// headers, and whether it goes over a TCP connection (`run_listener`) or into the `Service` directly.
+#[derive(Clone, Debug)]
+struct ViewReq {
+    c: Conc,
+    body: Vec<u8>,
+    fwd: bool,
+    wire: bool,
+}
+
+impl ViewReq {
+    /// The same request on the unknown path (the query stays).
+    fn twin(&self) -> Self {
+        let mut t = self.clone();
+        let query = self.c.target.find('?').map_or("", |i| &self.c.target[i..]);
+        t.c.target = format!("{UNKNOWN}{query}");
+        t
+    }
+    /// What the service sees of it (`wire_part`): over a connection hyper strips the blanks around
+    /// header values and attaches `OnUpgrade` iff the request has an `Upgrade` header.
+    fn seen(&self) -> Conc {
+        let mut seen = self.c.clone();
+        if self.wire {
+            for (_, v) in &mut seen.headers {
+                *v = trim_ows(v);
+            }
+            seen.onup = seen.first("upgrade").is_some() || seen.method == "CONNECT";
+        }
+        seen
+    }
+    fn to_json(&self) -> Value {
+        let mut v = self.c.to_json();
+        v["op"] = json!("backend-view");
+        v["body"] = json!(hexd(&self.body));
+        v["body_text"] = json!(String::from_utf8_lossy(&self.body[..self.body.len().min(80)]));
+        v["forwarding_headers"] = json!(self.fwd);
+        v["via_tcp"] = json!(self.wire);
+        v
+    }
+    fn from_json(v: &Value) -> Option<Self> {
+        if v.get("op").and_then(Value::as_str) != Some("backend-view") {
+            return None;
+        }
+        Some(Self {
+            c: Conc::from_json(v)?,
+            body: unhex(v["body"].as_str()?)?,
+            fwd: v["forwarding_headers"].as_bool()?,
+            wire: v["via_tcp"].as_bool()?,
+        })
+    }
+}
+
+/// A response: status, sorted headers without `date`, body.
+#[derive(Clone, Debug, PartialEq, Eq)]
+struct Resp {
+    status: u16,
+    headers: Vec<(String, Vec<u8>)>,
+    body: Vec<u8>,
+}
+
+impl Resp {
+    fn new(status: u16, mut headers: Vec<(String, Vec<u8>)>, body: Vec<u8>) -> Self {
+        headers.retain(|(n, _)| n != "date");
+        // the reflection is as long as the request: a `content-length` that is the length of the body says no more than the body
+        for (n, v) in &mut headers {
+            if n == "content-length" && *v == body.len().to_string().into_bytes() {
+                *v = b"(the length of the body)".to_vec();
+            }
+        }
+        headers.sort();
+        Self { status, headers, body }
+    }
+    fn from_backend(&self) -> bool {
+        self.status == 200 && self.headers.iter().any(|(n, _)| n == "x-backend")
+    }
+    /// status and headers as text
+    fn head_text(&self) -> String {
+        let hs: Vec<String> = self.headers.iter().map(|(n, v)| format!("{n}: {}", v.escape_ascii())).collect();
+        format!("{} [{}]", self.status, hs.join(", "))
+    }
+}
+
+/// A reflected request with the path it was sent to replaced by `<path>` (left as it is when the
+/// request line does not start with that path: then it differs from its twin's).
+fn view_modulo_path(reflected: &[u8], path: &str) -> Vec<u8> {
+    match request_line(reflected) {
+        Some((method, target, version, eol)) if target.starts_with(path.as_bytes()) => {
+            [method, b" <path>", &target[path.len()..], b" ", version, &reflected[eol..]].concat()
+        }
+        _ => reflected.to_vec(),
+    }
+}
+
+/// A reflected request as text: the head in full, the start of the body.
+fn view_text(reflected: &[u8]) -> String {
+    let split = find_bytes(reflected, b"\r\n\r\n").map_or(reflected.len(), |p| p + 4);
+    let (head, body) = reflected.split_at(split);
+    let shown = &body[..body.len().min(64)];
+    let rest = if body.len() > shown.len() { format!("...({} body bytes, fnv {:016x})", body.len(), fnv(body)) } else { String::new() };
+    format!("{}{}{rest}", head.escape_ascii(), shown.escape_ascii())
+}
+
+struct ViewEnv {
+    rt: tokio::runtime::Runtime,
+    url: &'static rusty_penguin_lib::arg::BackendUrl,
+    states: HashMap<(Cfg, bool), State>,
+    servers: HashMap<(Cfg, bool), std::net::SocketAddr>,
+}
+
+#[derive(Clone, Copy, Debug, PartialEq, Eq)]
+enum ViewOutcome {
+    /// a valid upgrade request answered 101 (or one the text leaves open)
+    Upgraded,
+    /// `/health` or `/version` without obfuscation
+    Served,
+    /// declined: compared with its twin; `true`: both answers came from the backend
+    Compared(bool),
+}
+
+impl ViewEnv {
+    fn new() -> Result<Self, String> {
+        let rt = tokio::runtime::Builder::new_multi_thread().worker_threads(2).enable_all().build().expect("tokio runtime");
+        let addr = rt
+            .block_on(async {
+                let l = tokio::net::TcpListener::bind(("127.0.0.1", 0)).await?;
+                let a = l.local_addr()?;
+                tokio::spawn(async move {
+                    loop {
+                        let Ok((stream, _)) = l.accept().await else { continue };
+                        tokio::spawn(reflecting_backend_conn(stream));
+                    }
+                });
+                Ok::<_, std::io::Error>(a)
+            })
+            .map_err(|e| format!("cannot listen on 127.0.0.1 ({e})"))?;
+        let url: &'static rusty_penguin_lib::arg::BackendUrl = Box::leak(Box::new(format!("http://{addr}").parse().expect("backend url")));
+        Ok(Self { rt, url, states: HashMap::new(), servers: HashMap::new() })
+    }
+
+    fn state(&mut self, cfg: &Cfg, fwd: bool) -> State {
+        if let Some(s) = self.states.get(&(cfg.clone(), fwd)) {
+            return s.clone();
+        }
+        let psk: Option<&'static HeaderValue> = cfg.psk.as_ref().map(|p| &*Box::leak(Box::new(HeaderValue::from_bytes(p).expect("psk"))));
+        let nf: &'static str = Box::leak(String::from_utf8(cfg.not_found.clone()).expect("utf8").into_boxed_str());
+        let st = self
+            .rt
+            .block_on(State::new())
+            .expect("State::new")
+            .with_ws_psk(psk)
+            .with_not_found_resp(nf)
+            .obfs(cfg.obfs)
+            .with_backend(Some(self.url))
+            .backend_add_forwarding_headers(fwd)
+            .with_client_addr(Some(std::net::SocketAddr::from(([192, 0, 2, 7], 4321))));
+        self.states.insert((cfg.clone(), fwd), st.clone());
+        st
+    }
+
+    fn server(&mut self, cfg: &Cfg, fwd: bool) -> Result<std::net::SocketAddr, String> {
+        if let Some(a) = self.servers.get(&(cfg.clone(), fwd)) {
+            return Ok(*a);
+        }
+        let st = self.state(cfg, fwd);
+        let a = self
+            .rt
+            .block_on(async {
+                let l = tokio::net::TcpListener::bind(("127.0.0.1", 0)).await?;
+                let a = l.local_addr()?;
+                tokio::spawn(rusty_penguin_lib::server::run_listener(l, None, st));
+                Ok::<_, std::io::Error>(a)
+            })
+            .map_err(|e| format!("cannot listen on 127.0.0.1 ({e})"))?;
+        self.servers.insert((cfg.clone(), fwd), a);
+        Ok(a)
+    }
+
+    fn run(&mut self, v: &ViewReq) -> Result<Resp, String> {
+        if v.wire {
+            let addr = self.server(&v.c.cfg, v.fwd)?;
+            let (status, hs, body) = self.rt.block_on(wire_request(addr, &v.c, &v.body))?;
+            return Ok(Resp::new(status, hs, body));
+        }
+        let st = self.state(&v.c.cfg, v.fwd);
+        let req = build_request_with(&v.c, rusty_penguin_lib::http::body::IncomingOrFullBody::new_full(Bytes::copy_from_slice(&v.body)))
+            .map_err(|e| format!("harness cannot build the request: {e}"))?;
+        self.rt.block_on(async {
+            let call = AssertUnwindSafe(async {
+                let resp = Service::<Request<rusty_penguin_lib::http::body::IncomingOrFullBody>>::call(&st, req)
+                    .await
+                    .map_err(|e| format!("service error: {e}"))?;
+                let (parts, body) = resp.into_parts();
+                let body = body.collect().await.map_err(|e| format!("body error: {e}"))?.to_bytes();
+                let hs = parts.headers.iter().map(|(n, v)| (n.as_str().to_string(), v.as_bytes().to_vec())).collect();
+                Ok::<_, String>(Resp::new(parts.status.as_u16(), hs, body.to_vec()))
+            })
+            .catch_unwind();
+            match tokio::time::timeout(std::time::Duration::from_secs(10), call).await {
+                Err(_) => Err("timeout".to_string()),
+                Ok(Err(_)) => Err("panic in State::call".to_string()),
+                Ok(Ok(r)) => r,
+            }
+        })
+    }
+
+    /// The property on one request and its twin on the unknown path, with the reflecting backend.
+    fn check(&mut self, v: &ViewReq) -> (ViewOutcome, Option<(&'static str, String)>) {
+        let seen = v.seen();
+        if matches!(seen.path(), "/health" | "/version") && !seen.cfg.obfs {
+            return (ViewOutcome::Served, None);
+        }
+        let got = match self.run(v) {
+            Ok(r) => r,
+            Err(e) => return (ViewOutcome::Compared(false), Some(("crash", e))),
+        };
+        let verdict = seen.upgrade_verdict();
+        if verdict != Some(false) && got.status == 101 {
+            return (ViewOutcome::Upgraded, None);
+        }
+        if verdict == Some(true) || got.status == 101 {
+            let why = format!("request is {}a valid upgrade request but the status is {}", if verdict == Some(true) { "" } else { "not " }, got.status);
+            return (ViewOutcome::Upgraded, Some(("iff", why)));
+        }
+        let t = v.twin();
+        let twin = match self.run(&t) {
+            Ok(r) => r,
+            Err(e) => return (ViewOutcome::Compared(false), Some(("crash", format!("on {UNKNOWN}: {e}")))),
+        };
+        let reached = got.from_backend() && twin.from_backend();
+        let (a, b) = (view_modulo_path(&got.body, v.c.path()), view_modulo_path(&twin.body, t.c.path()));
+        let heads_equal = got.status == twin.status && got.headers == twin.headers;
+        if a == b && heads_equal {
+            return (ViewOutcome::Compared(reached), None);
+        }
+        let why = if reached {
+            format!(
+                "the declined request was handed to the backend as `{}` but the same request on {UNKNOWN} as `{}` (they have to be equal but for the path){}; \
+the backend's answer depends on what it is handed, so the two responses differ: {} vs {}",
+                view_text(&got.body),
+                view_text(&twin.body),
+                if a == b { " [the two reflections are equal]" } else { "" },
+                got.head_text(),
+                twin.head_text()
+            )
+        } else {
+            format!(
+                "response {} `{}` differs from the response to the same request on {UNKNOWN}: {} `{}`",
+                got.head_text(),
+                view_text(&got.body),
+                twin.head_text(),
+                view_text(&twin.body)
+            )
+        };
+        (ViewOutcome::Compared(reached), Some(("backend-view", why)))
+    }
+}
+
+const VIEW_QUERIES: [&str; 3] = ["", "?a=1&b=%2Fws&psk=Correct%20PSK-123", "?"];
+const VIEW_BODIES: [&str; 3] = ["none", "form-with-a-request-inside", "20000-bytes"];
+
+fn view_body(i: u8) -> Vec<u8> {
+    match i {
+        0 => vec![],
+        1 => b"a=1&b=two\r\n\r\nGET /x HTTP/1.1\r\nhost: example.com\r\n\r\n".to_vec(),
+        _ => (0..20_000u32).map(|k| (k.wrapping_mul(31) % 251) as u8).collect(),
+    }
+}
+
+/// A case of the matrix with a body, a query, forwarding headers on or off, in-process or over TCP.
+#[derive(Clone, Copy, Debug, PartialEq, Eq)]
+struct VCase {
+    case: Case,
+    body: u8,
+    query: u8,
+    fwd: bool,
+    wire: bool,
+}
+
+impl VCase {
+    fn req(&self) -> ViewReq {
+        let mut c = self.case.conc();
+        if !c.target.contains('?') {
+            c.target.push_str(VIEW_QUERIES[self.query as usize]);
+        }
+        let body = view_body(self.body);
+        if !body.is_empty() {
+            c.headers.push(("content-type".to_string(), b"application/x-www-form-urlencoded".to_vec()));
+            c.headers.push(("content-length".to_string(), body.len().to_string().into_bytes()));
+        }
+        ViewReq { c, body, fwd: self.fwd, wire: self.wire }
+    }
+    fn describe(&self) -> String {
+        format!(
+            "{} body={} query={:?} forwarding-headers={} via={}",
+            self.case.describe(),
+            VIEW_BODIES[self.body as usize],
+            VIEW_QUERIES[self.query as usize],
+            self.fwd,
+            if self.wire { "tcp" } else { "in-process" }
+        )
+    }
+}
+
+fn view_cases(full: bool) -> Vec<VCase> {
+    let good = Case { hv: [V_EXACT; 5], pv: P_EQUAL, psk_cfg: true, obfs: false, onup: true, method: 0, target: 0 };
+    let mut v = vec![];
+    // (a) one dimension at a time around the valid request: every value of the near-miss tables
+    for case in neighbourhood(&[0, 1, 4]) {
+        v.push(VCase { case, body: 0, query: 0, fwd: false, wire: false });
+    }
+    // (b) requests declined for one reason (or for the key alone) x PSK configured or not x the
+    // presented key right / wrong / absent / on two lines x body x query x forwarding headers
+    let mut protos = vec![good, Case { method: 1, ..good }, Case { method: 4, ..good }, Case { onup: false, ..good }];
+    for h in 0..5 {
+        for var in [V_ABSENT, V_NEAR, V_CASE, V_LIST, V_DUP_BAD_GOOD, V_PAD_RIGHT] {
+            let mut c = good;
+            c.hv[h] = var;
+            protos.push(c);
+        }
+    }
+    for target in 1..=5 {
+        protos.push(Case { target, obfs: true, ..good });
+    }
+    let mut extras: Vec<(u8, u8, bool)> = vec![];
+    for body in 0..3 {
+        for query in 0..3 {
+            for fwd in [false, true] {
+                // quick: every value of each of the three, not every combination
+                if full || matches!((body, query, fwd), (0, 0, _) | (1, 0, false) | (0, 1, false) | (1, 1, true) | (2, 2, true) | (2, 0, false) | (0, 2, false)) {
+                    extras.push((body, query, fwd));
+                }
+            }
+        }
+    }
+    for p in &protos {
+        for psk_cfg in [false, true] {
+            for pv in [P_ABSENT, P_EQUAL, P_NEAR, P_CASE, P_EMPTY, P_DUP_GOOD_BAD, P_DUP_BAD_GOOD] {
+                for &(body, query, fwd) in &extras {
+                    v.push(VCase { case: Case { psk_cfg, pv, ..*p }, body, query, fwd, wire: false });
+                }
+                // (c) the same over a TCP connection (hyper parses the request, the body arrives as a stream)
+                if matches!(pv, P_ABSENT | P_EQUAL | P_NEAR) {
+                    for (body, query, fwd) in [(0, 0, false), (1, 1, true)] {
+                        v.push(VCase { case: Case { psk_cfg, pv, ..*p }, body, query, fwd, wire: true });
+                    }
+                }
+            }
+        }
+    }
+    v.retain(|x| !(matches!(TARGETS[x.case.target as usize], "/health" | "/version") && !x.case.obfs));
+    v
+}
+
+fn view_shrink(env: &mut ViewEnv, v: VCase) -> VCase {
+    let mut cur = v;
+    loop {
+        let mut cands = vec![];
+        if cur.wire {
+            cands.push(VCase { wire: false, ..cur });
+        }
+        if cur.fwd {
+            cands.push(VCase { fwd: false, ..cur });
+        }
+        if cur.body != 0 {
+            cands.push(VCase { body: 0, ..cur });
+        }
+        if cur.query != 0 {
+            cands.push(VCase { query: 0, ..cur });
+        }
+        cands.extend(shrink_candidates(cur.case).into_iter().map(|case| VCase { case, ..cur }));
+        match cands.into_iter().find(|c| env.check(&c.req()).1.is_some()) {
+            Some(c) => cur = c,
+            None => return cur,
+        }
+    }
+}
+
+fn backend_view_part(args: &Args, rep: &mut Report, full: bool) {
+    let mut env = match ViewEnv::new() {
+        Ok(e) => e,
+        Err(e) => {
+            rep.notes.push(format!("backend-view part skipped: {e}"));
+            return;
+        }
+    };
+    // minimised past failures first
+    for (name, text) in corpus_files(args.corpus.as_deref()) {
+        for l in text.lines() {
+            let Ok(v) = serde_json::from_str::<Value>(l.trim()) else { continue };
+            let Some(r) = ViewReq::from_json(&v) else { continue };
+            rep.case(Some(fnv(l.as_bytes())));
+            rep.count(&format!("corpus/{name}"));
+            if let (_, Some((kind, why))) = env.check(&r) {
+                rep.fail(FailKind::Impl, &format!("{kind}: corpus {name} {} {}", r.c.method, r.c.target), &why, r.to_json());
+            }
+        }
+    }
+    // what the compared pairs have to have covered (harness self-check at the end)
+    let wanted = [
+        "psk-configured/right-key-presented",
+        "psk-configured/wrong-key-presented",
+        "psk-configured/no-key-presented",
+        "no-psk-configured/the-key-presented",
+        "no-psk-configured/another-key-presented",
+        "no-psk-configured/no-key-presented",
+        "with-sec-websocket-key",
+        "without-sec-websocket-key",
+        "upgrade-headers-all-right",
+        "an-upgrade-header-near-miss",
+        "with-body",
+        "with-query",
+        "forwarding-headers",
+        "via-tcp",
+    ];
+    let mut covered: HashMap<&str, u64> = HashMap::new();
+    let mut shrunk = 0;
+    for vc in view_cases(full) {
+        let r = vc.req();
+        let (outcome, failure) = env.check(&r);
+        rep.case(Some(fnv(format!("backend-view {} {} {} {}", r.c.driver_line(), vc.body, vc.fwd, vc.wire).as_bytes())));
+        rep.count("part/backend-view");
+        rep.count(match outcome {
+            ViewOutcome::Upgraded => "backend-view/upgraded(not-compared)",
+            ViewOutcome::Served => "backend-view/served(not-compared)",
+            ViewOutcome::Compared(true) => "backend-view/compared:both-answers-from-the-backend",
+            ViewOutcome::Compared(false) => "backend-view/compared:not-from-the-backend",
+        });
+        if outcome == ViewOutcome::Compared(true) && r.c.path() == "/ws" {
+            let presented = r.c.first("x-penguin-psk");
+            let mut tags = vec![match (r.c.cfg.psk.is_some(), presented) {
+                (true, Some(p)) if p == PSK => "psk-configured/right-key-presented",
+                (true, Some(_)) => "psk-configured/wrong-key-presented",
+                (true, None) => "psk-configured/no-key-presented",
+                (false, Some(p)) if p == PSK => "no-psk-configured/the-key-presented",
+                (false, Some(_)) => "no-psk-configured/another-key-presented",
+                (false, None) => "no-psk-configured/no-key-presented",
+            }];
+            tags.push(if r.c.first("sec-websocket-key").is_some() { "with-sec-websocket-key" } else { "without-sec-websocket-key" });
+            tags.push(if (0..4).all(|h| variant_says(h, vc.case.hv[h]) == Says::Valid) { "upgrade-headers-all-right" } else { "an-upgrade-header-near-miss" });
+            if !r.body.is_empty() {
+                tags.push("with-body");
+            }
+            if r.c.target.contains('?') {
+                tags.push("with-query");
+            }
+            if r.fwd {
+                tags.push("forwarding-headers");
+            }
+            if r.wire {
+                tags.push("via-tcp");
+            }
+            for t in tags {
+                *covered.entry(t).or_insert(0) += 1;
+            }
+        }
+        if let Some((kind, why)) = failure {
+            if shrunk >= 4 {
+                continue;
+            }
+            shrunk += 1;
+            let small = view_shrink(&mut env, vc);
+            let (kind2, why2) = env.check(&small.req()).1.unwrap_or((kind, why));
+            let prefix = if kind2 == "backend-view" { String::new() } else { format!("{kind2}: ") };
+            rep.fail(FailKind::Impl, &format!("backend-view: {prefix}{}", small.describe()), &format!("{why2} [{}]", small.describe()), small.req().to_json());
+        }
+    }
+    // does the reflection show the key and the body at all? (on the unknown path; reported, not judged:
+    // the pairs are judged against each other only)
+    let mut shows = false;
+    {
+        let probe = VCase {
+            case: Case { hv: [V_EXACT; 5], pv: P_EQUAL, psk_cfg: false, obfs: false, onup: true, method: 1, target: (TARGETS.len() - 1) as u8 },
+            body: 1,
+            query: 1,
+            fwd: false,
+            wire: false,
+        };
+        if let Ok(r) = env.run(&probe.req()) {
+            if find_bytes(&r.body, b"x-penguin-psk: Correct PSK-123\r\n").is_some() && r.body.ends_with(&view_body(1)) {
+                shows = true;
+            }
+        }
+    }
+    for w in wanted {
+        let n = covered.get(w).copied().unwrap_or(0);
+        rep.count_n(&format!("backend-view-pairs/{w}"), n);
+        if n == 0 && !rep.has_failures() {
+            rep.fail(
+                FailKind::Model,
+                &format!("harness:backend-view-coverage {w}"),
+                &format!("no declined /ws request of the kind `{w}` was compared with its twin through the reflecting backend"),
+                json!({}),
+            );
+        }
+    }
+    rep.notes.push(format!(
+        "backend-view part: a local backend that answers with the request it was handed (request line, header lines in order, body; digest of all but the path in a header); \
+declined /ws requests (and other hidden paths) vs the same request on {UNKNOWN}: reflections equal but for the path and responses equal, {} pairs with both answers from the backend; a POST to {UNKNOWN} with an x-penguin-psk header and a body is reflected with both: {shows}",
+        rep.dist.get("backend-view/compared:both-answers-from-the-backend").copied().unwrap_or(0)
+    ));
+    env.rt.shutdown_timeout(std::time::Duration::from_secs(2));
+}
+
+// ---------------------------------------------------------------------------------------------
 
 fn replay(path: &str) -> i32 {
     let text = std::fs::read_to_string(path).expect("read replay file");
     let v: Value = serde_json::from_str(&text).expect("replay json");
     let rp = if v.get("replay").is_some() { &v["replay"] } else { &v };
     let rp = if rp.get("case").is_some() { &rp["case"] } else { rp };
+    if let Some(r) = ViewReq::from_json(rp) {
+        return replay_view(&r);
+    }
     let Some(c) = Conc::from_json(rp) else {
         println!("not a replayable route case: {rp}");
         return 2;
@@ -1568,6 +2217,37 @@ fn replay(path: &str) -> i32 {
     }
 }
 
+fn replay_view(r: &ViewReq) -> i32 {
+    let mut env = match ViewEnv::new() {
+        Ok(e) => e,
+        Err(e) => {
+            println!("cannot start the reflecting backend: {e}");
+            return 2;
+        }
+    };
+    println!("request        {} {} on-upgrade={} psk-configured={:?} obfs={} forwarding-headers={} via={} body={} bytes", r.c.method, r.c.target, r.c.onup,
+        r.c.cfg.psk.as_ref().map(|p| String::from_utf8_lossy(p).into_owned()), r.c.cfg.obfs, r.fwd, if r.wire { "tcp" } else { "in-process" }, r.body.len());
+    for (n, v) in &r.c.headers {
+        println!("  {n}: {:?}", String::from_utf8_lossy(v));
+    }
+    for (what, q) in [("as sent", r.clone()), ("on the unknown path", r.twin())] {
+        match env.run(&q) {
+            Ok(resp) => println!("{what}: {} {}\n  backend was handed `{}`", q.c.target, resp.head_text(), view_text(&resp.body)),
+            Err(e) => println!("{what}: {} {e}", q.c.target),
+        }
+    }
+    match env.check(r).1 {
+        Some((kind, why)) => {
+            println!("FAILS ({kind}): {why}");
+            1
+        }
+        None => {
+            println!("holds on this input");
+            0
+        }
+    }
+}
+
 fn corpus_part(args: &Args, rep: &mut Report) {
     let mut imp = Impl::new();
     for (name, text) in corpus_files(args.corpus.as_deref()) {
@@ -1577,6 +2257,9 @@ fn corpus_part(args: &Args, rep: &mut Report) {
                 continue;
             }
             let Ok(v) = serde_json::from_str::<Value>(l) else { continue };
+            if v.get("op").and_then(Value::as_str) == Some("backend-view") {
+                continue; // run by `backend_view_part` (needs the reflecting backend)
+            }
             let Some(c) = Conc::from_json(&v) else { continue };
             let o = imp.eval(&c);
             let t = imp.eval(&c.with_target(UNKNOWN));
@@ -1652,6 +2335,7 @@ case-changed ({}), each x {per_combo}",
     accept_part(&args, &mut rep, &mut rng.fork(2), if full { 10_000 } else { 1_500 });
     wire_part(&mut rep);
     backend_part(&mut rep);
+    backend_view_part(&args, &mut rep, full);
     rep.finish(&args);
     std::process::exit(i32::from(rep.has_failures()));
 }
